@@ -70,7 +70,17 @@ def annotation_case(args):
     # reference run: plain gtf, --complete_genedb, fresh home (the record ORDER of a GTF is not part of the annotation: the reference of
     # the shuffled style is the run on the plain file)
     ref_out = os.path.join(d, "ref")
-    rc = run.run_isoquant(run.base_argv(paths, ref_out), paths["home"], os.path.join(d, "ref.txt"))
+    ref_argv = run.base_argv(paths, ref_out)
+    if style == "partial":
+        # a partly incomplete annotation (gene GB0 has exon records only, e.g. entries appended to a downloaded file); only runs WITHOUT
+        # --complete_genedb are compared: the reference is the run on a database converted beforehand (records inferred)
+        lines = [l for l in open(paths["gtf"]) if not ('gene_id "GB0"' in l and l.split("\t")[2] in ("gene", "transcript"))]
+        open(paths["gtf"], "w").writelines(lines)
+        ref_db = os.path.join(d, "reference.db")
+        syn.build_db(paths["gtf"], ref_db, complete=False)
+        ref_argv = ["--output", ref_out, "--reference", paths["ref"], "--bam", paths["bam"], "--data_type", "nanopore", "--prefix", "OUT",
+                    "--threads", "1", "--genedb", ref_db]
+    rc = run.run_isoquant(ref_argv, paths["home"], os.path.join(d, "ref.txt"))
     if rc != 0:
         return args[:3] + (style,), [("reference-run-failed", "exit %d (%s style)" % (rc, style))]
     t0 = run.read_tree(os.path.join(ref_out, "OUT"))
@@ -275,6 +285,9 @@ def run(ctx):
         for complete in (1, 0):
             for cache in (("fresh", "cached", "stale", "overwritten", "reused-folder") if rep != "db" else ("fresh",)):
                 jobs.append((rep, complete, cache, ctx.scratch))
+    for rep in ("gtf", "gtf.gz", "db"):
+        for cache in (("fresh",) if rep == "db" else ("fresh", "cached")):
+            jobs.append((rep, 0, cache, ctx.scratch, "partial"))
     for style in ("ensembl", "shuffled"):
         for rep in ("gtf", "gtf.gz", "db"):
             for complete in (1, 0):
